@@ -88,10 +88,10 @@ def udpTable : List (GSite × Role) :=
     (⟨"shutdownDrain", "closeCb", "a6a26016"⟩, .close .drainSession),
     (⟨"shutdownDrain", "closeCb", "621d9188"⟩, .close .drainResidual),
     (⟨"process", "closeNow", "43ccd617"⟩, .closeProc),
-    (⟨"readFromListener", "idAlloc", "9dfba1c3"⟩, .prim "acceptFresh: id allocation"),
-    (⟨"readFromListener", "gaugeInc", "9dfba1c3"⟩, .prim "acceptFresh: gauge"),
-    (⟨"readFromListener", "acceptCb", "eca7863a"⟩, .prim "acceptFresh: accept callback"),
-    (⟨"readFromListener", "dataCb", "2eb901df"⟩, .prim "dataCb"),
+    (⟨"readFromListener", "idAlloc", "97ae9b42"⟩, .prim "acceptFresh: id allocation"),
+    (⟨"readFromListener", "gaugeInc", "97ae9b42"⟩, .prim "acceptFresh: gauge"),
+    (⟨"readFromListener", "acceptCb", "82bddb7e"⟩, .prim "acceptFresh: accept callback"),
+    (⟨"readFromListener", "dataCb", "ca9b79c8"⟩, .prim "dataCb"),
     (⟨"connectDo", "closeCb", "ac74439f"⟩, .close .uResolveFail),
     (⟨"connectDo", "closeCb", "4d0cff4a"⟩, .close .uNoSocket),
     (⟨"connectDo", "pendingClear", "46c86777"⟩, .prim "connectNow: created with connectPending = false"),
@@ -101,10 +101,11 @@ def udpTable : List (GSite × Role) :=
     (⟨"viaDo", "closeCb", "c4d16601"⟩, .close .vAfUnknown),
     (⟨"viaDo", "closeCb", "c22a8bfa"⟩, .close .vResolveFail),
     (⟨"viaDo", "closeCb", "f2859527"⟩, .close .vAfMismatch),
-    (⟨"viaDo", "closeCb", "f1f51db8"⟩, .close .vCap),
-    (⟨"viaDo", "pendingClear", "f5252279"⟩, .prim "connectNow: created with connectPending = false"),
-    (⟨"viaDo", "gaugeInc", "f5252279"⟩, .prim "connectNow: gauge"),
-    (⟨"viaDo", "connectCb", "b0982007"⟩, .prim "connectNow: connect callback"),
+    (⟨"viaDo", "closeCb", "11b10a75"⟩, .close .vKeyFail),
+    (⟨"viaDo", "closeCb", "5e9362a5"⟩, .close .vCap),
+    (⟨"viaDo", "pendingClear", "884ee47e"⟩, .prim "connectNow: created with connectPending = false"),
+    (⟨"viaDo", "gaugeInc", "884ee47e"⟩, .prim "connectNow: gauge"),
+    (⟨"viaDo", "connectCb", "494c3a95"⟩, .prim "connectNow: connect callback"),
     (⟨"onClient", "dataCb", "5f9fce6c"⟩, .prim "dataCb"),
     (⟨"onClient", "dataCb", "4342727a"⟩, .prim "dataCb (empty datagram)"),
     (⟨"onClient", "closeNow", "d8fb10d8"⟩, .close .ucRecvErr),
@@ -144,5 +145,51 @@ def fanout : List String := ["lockSync", "pendingFind", "pendingErase", "suppres
 def observe : List String := ["idAlloc", "lockObserver", "append", "index"]
 def unobserve : List String := ["lockObserver", "indexFind", "retFalse", "indexErase", "removeIf", "eraseEmpty", "retTrue"]
 def setSessionData : List String := ["lockUserData", "assign"]
+
+/-- step 6 of the Transport close handler as `Model/CloseDeliver.lean` (`markClosed`, `eraseMode`, `sweep`) mirrors it: under
+syncMutex, close the buffer (and wake its waiters) or insert a closed tombstone; erase the read mode UNCONDITIONALLY (depth 0);
+sweep every other closed, drained, unparked, unflushed entry once the map is over the threshold -/
+def closeStep6 : List String := [
+  "0:std::lock_guard<std::mutex>lk(syncMutex);",
+  "0:autobufIt=receiveBuffers.find(sid);",
+  "0:if(bufIt!=receiveBuffers.end())",
+  "1:bufIt->second->closed=true;",
+  "1:bufIt->second->cv.notify_all();",
+  "0:else",
+  "1:autotomb=std::make_shared<SyncReceiveBuffer>();",
+  "1:tomb->closed=true;",
+  "1:receiveBuffers[sid]=tomb;",
+  "0:readModes.erase(sid);",
+  "0:conststd::size_tgcThreshold=config.syncBufferGcThreshold;",
+  "0:if(receiveBuffers.size()>gcThreshold)",
+  "1:for(autoit=receiveBuffers.begin();it!=receiveBuffers.end();)",
+  "2:if(it->first!=sid&&it->second->closed&&!it->second->hasData&&it->second->waiters==0&&!it->second->flushing)",
+  "3:it=receiveBuffers.erase(it);",
+  "2:else",
+  "3:++it;"]
+
+/-- Transport::setReadMode up to the end of its first syncMutex section as `Deliver.setMode` mirrors it: I/O-thread refusal,
+`allowReadModeSwitch`, then under the lock the tombstone guard of repair FC02a (vacuous success) BEFORE readModes is read or written, the old mode
+(absent = Async), and the non-flush transitions (register the mode, create the buffer for Sync) -/
+def setReadModeEntry : List String := [
+  "0:if(std::this_thread::get_id()==_impl->engine->getIoThreadId())",
+  "1:throwstd::logic_error(\"\"\"\");",
+  "0:if(!_impl->config.allowReadModeSwitch)",
+  "1:returnfalse;",
+  "0:ReadModeoldMode=ReadMode::Async;",
+  "0:{",
+  "1:std::lock_guard<std::mutex>lk(_impl->syncMutex);",
+  "1:autoclosedIt=_impl->receiveBuffers.find(sid);",
+  "1:if(closedIt!=_impl->receiveBuffers.end()&&closedIt->second->closed)",
+  "2:returntrue;",
+  "1:autoit=_impl->readModes.find(sid);",
+  "1:if(it!=_impl->readModes.end())",
+  "2:oldMode=it->second;",
+  "1:if(!(oldMode!=ReadMode::Async&&mode==ReadMode::Async))",
+  "2:_impl->readModes[sid]=mode;",
+  "2:if(mode==ReadMode::Sync)",
+  "3:if(_impl->receiveBuffers.find(sid)==_impl->receiveBuffers.end())",
+  "4:_impl->receiveBuffers[sid]=std::make_shared<Impl::SyncReceiveBuffer>();",
+  "2:returntrue;"]
 
 end Iora.Lifecycle.Sites
